@@ -54,7 +54,18 @@ def corruptions(rng, doc, fmt, n):
             new = text[:a] + text[b:]                                        # removed token
         elif k < .7:
             new = text[:a] + t.group(0) + t.group(0) + text[b:]              # duplicated token
-        elif k < .85:
+        elif k < .78:
+            # one word of a blank-separated list (a many-valued reference) given twice: `a b` -> `a a b`
+            lists = [m for m in toks if m.group(0).startswith('"') and ' ' in m.group(0).strip('"').strip()]
+            if not lists:
+                continue
+            t = rng.choice(lists)
+            a, b = t.span()
+            words = t.group(0).strip('"').split()
+            i = rng.randrange(len(words))
+            words.insert(i, words[i])
+            new = text[:a] + '"' + ' '.join(words) + '"' + text[b:]
+        elif k < .88:
             new = text[:a] + '"//@nowhere.99"' + text[b:]                    # broken reference / wrong type
         else:
             c = rng.randrange(len(text))
@@ -144,7 +155,7 @@ def run(ctx):
     nprefix = 400 if ctx.quick() else 2000
     ncorr = 120 if ctx.quick() else 600
     ctx.rule = (f'{n} valid XMI/JSON documents saved from generated models; for each: every byte prefix (sampled to {nprefix} above '
-                f'that size) and {ncorr} single-token corruptions (reversed names, removed/duplicated tokens, broken references, '
+                f'that size) and {ncorr} single-token corruptions (reversed names, removed/duplicated tokens, a word of a blank-separated reference list given twice, broken references, '
                 'structural characters), each asked from a resource set that already holds another resource, under a 10 s watchdog; '
                 'oracle: raises or yields a model satisfying C01-C03; after a failure resources / metamodel registry / global '
                 'registry are exactly as before; a second get_resource returns the same resource. non-trivial & distinct = '
